@@ -22,7 +22,7 @@ def handle : List String → String
   | ["html5", s] => showL (substHtml5 T (cps s))
   | ["html5raw", s] => showL (substHtml5Raw T (cps s))
   | ["quote", s] => showL (quoteAttr (cps s))
-  | ["readtext", s] => showL (readText T 0 (cps s))
+  | ["readtext", s] => showL (readText T false 0 (cps s))
   | ["readattr", s] => showO (readAttr T (cps s))
   | ["unescape", s] => showL (unescape T 0 (cps s))
   | ["name2char", s] => showO (T.toChar.get (cps s))
@@ -36,8 +36,9 @@ def handle : List String → String
     let s := cps s
     let subs := [substXml X s, substHtml T s, substHtml5 T s]
     let head := [substXml X s, substXmlCE T X s, substHtml T s, substHtml5 T s, substHtml5Raw T s, quoteAttr s]
-    let reads := subs.flatMap fun o => [showL (readText T 0 o), showL (quoteAttr o), showO (readAttr T (quoteAttr o))]
-    " ".intercalate (head.map showL ++ reads)
+    let reads := subs.flatMap fun o => [showL (readText T false 0 o), showL (quoteAttr o), showO (readAttr T (quoteAttr o))]
+    let raw := [if s.contains 60 then "skip" else showL (readText T false 0 s), showO (readAttr T (quoteAttr s))]
+    " ".intercalate (head.map showL ++ reads ++ raw)
   | _ => "bad-op"
 
 end BS.Drv.C09
